@@ -126,6 +126,12 @@ def run_case(case):
                             clusters={"c": env.fs_backend(sc.path("c%d" % si), cache_mb=cache)})
                 unreadable = True
                 out["obs"]["subset_runs_with_unreadable_results"] += 1
+            ro_c = (not unreadable) and si % 7 == 3
+            if ro_c:
+                # the named cluster's store is opened read-only for this run: its calls that are not in the store are
+                # computed and not recorded, which must not change what their callers record
+                env.set_env(sc.path("env%dr" % si), default_storage=env.fs_backend(sc.path("d%d" % si), cache_mb=cache),
+                            clusters={"c": env.fs_backend(sc.path("c%d" % si), cache_mb=cache, read_only=True)})
             mark = REC.mark()
             invoke_root()
             ran = {(ev[1][0], ev[1][2], ev[1][4]) for ev in REC.since(mark)}
@@ -136,9 +142,14 @@ def run_case(case):
             if served and len(recomputed) > 1:
                 out["nontrivial"].append("%s:%d" % (tid, si))
             out["obs"]["sub_calls_served_from_store"] += len(served)
+            if ro_c:
+                if any(entries[k].fn == 4 for k in recomputed):
+                    out["obs"]["subset_runs_with_calls_computed_in_a_read_only_cluster"] += 1
+                recomputed = [k for k in recomputed if entries[k].fn != 4]  # (those have no record to look at)
             compare_all(out, fail, entries, recomputed, tid,
                         "memoized beforehand: %s%s (%s, %s)" % (sorted(entries[k].node for k in S),
-                                                               ", their result data removed" if unreadable else "",
+                                                               ", their result data removed" if unreadable else
+                                                               (", cluster c read-only" if ro_c else ""),
                                                                "batch" if batch_mode else "single",
                                                                "cache" if cache else "no cache"), batch_mode)
         out["sample"] = {"tree": tree, "subsets": len(subsets)}
@@ -167,5 +178,5 @@ def compare_all(out, fail, entries, which, tid, label, batch_mode):
 
 
 def conclude(agg):
-    return core.first(core.need(agg, "records_compared", 300), core.need(agg, "sub_calls_served_from_store", 100), core.need(agg, "subset_runs_with_unreadable_results", 30),
+    return core.first(core.need(agg, "records_compared", 300), core.need(agg, "sub_calls_served_from_store", 100), core.need(agg, "subset_runs_with_unreadable_results", 30), core.need(agg, "subset_runs_with_calls_computed_in_a_read_only_cluster", 5),
                       None if len(agg.sets.get("step_kinds", ())) >= 8 else "too few step kinds"), {}
